@@ -112,7 +112,7 @@ def r2(ctx):
         subs = [e for e in calls if e.name.endswith("fetch_sub")]
         removed_some = any(isinstance(c, tuple) and c[0] == "discr" and "cbarg" in repr(c) and truth == 1 for c, truth, _s, _at in p.state.pc)
         if removed_some:
-            oks = len(subs) == 1 and any(isinstance(x, tuple) and x[0] == "cbarg" for x in atoms(subs[0].args[1])) and any(isinstance(x, tuple) and x[0] in ("len",) or (isinstance(x, tuple) and x[0] == "call" and x[1].endswith("::len")) for x in atoms(subs[0].args[1]))
+            oks = len(subs) >= 1 and all(any(isinstance(x, tuple) and x[0] == "cbarg" for x in atoms(sb_.args[1])) and any(isinstance(x, tuple) and x[0] in ("len",) or (isinstance(x, tuple) and x[0] == "call" and x[1].endswith("::len")) for x in atoms(sb_.args[1])) for sb_ in subs)
             rep.check(oks, "sweep:subtracts-removed-size", "usage -= len(removed record)", "the sweep does not subtract the size of each removed record (%d subtractions)" % len(subs), b.loc())
     rep.check(n_under > 0 and n_empty > 0 and n_sweep > 0, "sweep:cases", "paths: under limit / empty store / eviction", "the sweep lacks one of the cases under-limit/empty-store/eviction (%d/%d/%d)" % (n_under, n_empty, n_sweep), b.loc())
     # it is a loop
